@@ -75,7 +75,7 @@ def j_node(node):
     for role, tgt in branches:
         if not isinstance(role, str):
             raise Unrepresentable('non-str role')
-        if isinstance(tgt, tuple):
+        if isinstance(tgt, (tuple, list)):
             out.append([role, j_node(tgt)])
         else:
             out.append([role, j_atom(tgt)])
